@@ -300,6 +300,21 @@ Match(got, want) ==
             \/ Match(got, Tail(want))
        ELSE got # <<>> /\ ItemEq(Head(got), w) /\ Match(Tail(got), Tail(want))
 
+(* Diagnosis of the recorded finding "the ESC \ that ends an OSC with an empty payload is  *)
+(* delivered as well": Match, except that one ESC \ item is tolerated at each marker.  A   *)
+(* rejected run that MatchK accepts differs from the prescription by nothing else.         *)
+RECURSIVE MatchK(_, _)
+MatchK(got, want) ==
+  IF want = <<>> THEN got = <<>>
+  ELSE LET w == Head(want) IN
+       IF w.t = "mark" THEN
+            \/ (got # <<>> /\ Head(got) = EscI(<<>>, 92) /\ MatchK(Tail(got), Tail(want)))
+            \/ MatchK(got, Tail(want))
+       ELSE IF w.t = "opt" THEN
+            \/ (got # <<>> /\ AnyEq(Head(got), w.alts) /\ MatchK(Tail(got), Tail(want)))
+            \/ MatchK(got, Tail(want))
+       ELSE got # <<>> /\ ItemEq(Head(got), w) /\ MatchK(Tail(got), Tail(want))
+
 (* First point of divergence (greedy), for the rejection report:            *)
 (* <<prescribed item or "end", delivered item or "end", marker just passed>>. *)
 RECURSIVE Diverge(_, _, _)
